@@ -34,11 +34,16 @@ SITE_DECODED = "monkeytype.encoding"
 HEADER = """From MT Require Import EncodeCases.
 Open Scope string_scope. Open Scope list_scope.
 %s
-Definition W : world := World
+Definition cn_tbl : name_tbl := %s.
+Definition fn_tbl : name_tbl := %s.
+Definition hid_t : hid_tbl := %s.
+Definition W : world := World cn_tbl fn_tbl
   %s
+  hid_t.
+(* the import environment after importlib.reload of the fixture module *)
+Definition W2 : world := World cn_tbl fn_tbl
   %s
-  %s
-  %s.
+  hid_t.
 """
 
 
@@ -70,9 +75,29 @@ def sentinel_types(mod):
     Type / Union / a TypedDict."""
     from typing import Dict, List, Optional, Type, Union
     out = []
-    for S in mod.SENTINELS:
+    for S in list(mod.SENTINELS) + list(mod.ATTR_CLASSES) + [mod.CLASSES["Caf\u00e9"][0]]:
         out += [S, List[S], Dict[str, S], Optional[S], Type[S], Union[S, int], Dict[str, List[Optional[S]]],
                 typegen.make_td({"a": S}, {"b": Type[S]})]
+    return out
+
+
+# str keys beyond ASCII (accented, CJK, astral, lone surrogates as os.fsdecode produces for non-UTF-8 file names).
+# Within one dict the keys differ in their first (ASCII) character, so that Python's code-point order and the order of
+# the escaped Gallina literals agree.
+UNICODE_DICTS = [
+    {"a": 1, "b_\u00e9": "x"}, {"d_\u6f22": [1], "z": None}, {"f_\U0001f600": {"g_\u00e9": 1}},
+    {"caf\udce9.txt": 1, "a": 2}, {"h_\udc80": (1,), "m": 2.0}, {"\u00e9": 1}, {"\U0001f600": [None]},
+    {"k_\u00e9\u6f22\U0001f600\udcff": 1, "j": {"caf\udce9.txt": "s"}},
+]
+
+
+def unicode_types():
+    from monkeytype.typing import get_type, shrink_types
+    out = []
+    for d in UNICODE_DICTS:
+        for v in (d, [d], {"outer": d}, (d, 1)):
+            out.append(get_type(v, 10))
+    out.append(shrink_types([get_type(UNICODE_DICTS[0], 10), get_type({"a": 1}, 10)], 10))     # optional non-ASCII key
     return out
 
 
@@ -103,7 +128,9 @@ def type_pool(ctx, rnd, mod):
     for t in typegen.type_stream(rnd, 250 if quick else 5000):
         out.append((t, SITE_FRESH, "grammar"))
     for t in sentinel_types(mod):
-        out.append((t, SITE_FRESH, "hidden-builtin namesake"))
+        out.append((t, SITE_FRESH, "namesake or attribute-exposing class"))
+    for t in unicode_types():
+        out.append((t, SITE_FRESH, "non-ASCII keys"))
     base = list(out)
     rws = rewriters()
     step = 3 if quick else 1
@@ -347,6 +374,12 @@ def _run(ctx, rnd, quick, ct, ft, it, names, mod, CallTraceRow, CallTrace, type_
         for X in sentinel_types(mod):
             cases.append(_trace_case(CallTrace, CallTraceRow, func, expect, kind, label, {"a": X}, X, X,
                                      "type", "type", ct, ft, it, names, dist))
+    # non-ASCII TypedDict keys, parameter names and identifiers
+    for label in ("mfunc", "na\u00efve", "Caf\u00e9.m\u00e9thode"):
+        func, expect, kind = mod.FUNCS[label]
+        for X in unicode_types():
+            cases.append(_trace_case(CallTrace, CallTraceRow, func, expect, kind, label,
+                                     {"p_\u00e9": X, "a": int, "q_\u6f22": X}, X, X, "type", "type", ct, ft, it, names, dist))
     # every class of the streams (value stream, grammar stream, fixture package; incl. falsy class objects and classes
     # named like typing forms) as a TOP-LEVEL return type, yield type and argument type, bare and as Type[C]
     from typing import Type
@@ -372,31 +405,44 @@ def _run(ctx, rnd, quick, ct, ft, it, names, mod, CallTraceRow, CallTrace, type_
         cases.append(_trace_case(CallTrace, CallTraceRow, func, expect, kind, label, {"a": Tuple[int, ...]}, None, None,
                                  "absent", "absent", ct, ft, it, names, dist))
 
-    # ------------------------------ environment ------------------------------
-    for c in list(ct.code):
-        names.add((c.__module__, c.__qualname__))
-    for f in list(ft.objs):
-        m, q = getattr(f, "__module__", None), getattr(f, "__qualname__", None)
-        if isinstance(m, str) and isinstance(q, str):
-            names.add((m, q))
-    for g in ("Any", "Union", "List", "Set", "Dict", "DefaultDict", "Tuple", "Type", "Iterator", "Generator", "Callable"):
-        names.add(("typing", g))
-    hid = ej.hidden_table(ct)
-    env = ej.env_table(names, ct, ft)          # may number further classes / functions
+    # ------------------------------ environment (before the reload) ------------------------------
+    def collect_names():
+        for c in list(ct.code):
+            names.add((c.__module__, c.__qualname__))
+        for f in list(ft.objs):
+            m, q = getattr(f, "__module__", None), getattr(f, "__qualname__", None)
+            if isinstance(m, str) and isinstance(q, str):
+                names.add((m, q))
+        for g in ("Any", "Union", "List", "Set", "Dict", "DefaultDict", "Tuple", "Type", "Iterator", "Generator", "Callable"):
+            names.add(("typing", g))
+    collect_names()
+    ej.env_table(names, ct, ft)                # may number further classes / functions
+    collect_names()
     env = ej.env_table(names, ct, ft)
-    header = HEADER % (it.header(), ej.class_name_table(ct), ft.name_table(), env, hid)
+
+    # ------------------------------ history: write + decode, reload the module, decode again ------------------------------
+    n_before = len(cases)
+    cases += _reload_history(mod, CallTrace, CallTraceRow, ct, ft, it, names, dist)
+    collect_names()
+    ej.env_table(names, ct, ft)
+    collect_names()
+    env2 = ej.env_table(names, ct, ft)         # what the names lead to now
+    hid = ej.hidden_table(ct)
+    header = HEADER % (it.header(), ej.class_name_table(ct), ft.name_table(), hid, env, env2)
     dist["env_rows"] = len(names)
     dist["classes"] = len(ct.code)
     dist["functions"] = len(ft.objs)
 
     outs = common.run_coq_shards(ctx.work, "c08", header, [c["term"] for c in cases], "ecase",
-                                 "bad (verdict_tagged W) 0 cases", shard_size=250)
+                                 "bad (verdict_tagged2 W W2) 0 cases", shard_size=250)
     bad = common.parse_bad(outs)
     failures, mismatches = [], []
     per_finding = collections.Counter()
     for i, code in bad:
         c = cases[i]
         v, kf = code % 10, code // 10
+        asc = (lambda x: x if x is None else str(x).encode("ascii", "backslashreplace").decode())
+        c["desc"], c["impl"] = asc(c["desc"]), asc(c.get("impl"))
         rec = {"kind": c["kind"], "input": c["desc"], "impl": c.get("impl"), "term": c["term"][:4000]}
         if v == 2:
             finding = {1: "kf_tuplevar_encode", 2: "kf_td_site"}.get(kf)
@@ -425,7 +471,8 @@ def _run(ctx, rnd, quick, ct, ft, it, names, mod, CallTraceRow, CallTrace, type_
     for kind in ("type", "trace", "decode"):
         for c in cases:
             if c["kind"] == kind and c["nontrivial"]:
-                samples.append({"kind": kind, "input": c["desc"][:300], "impl": str(c.get("impl"))[:300]})
+                samples.append({"kind": kind, "input": c["desc"][:300].encode("ascii", "backslashreplace").decode(),
+                                "impl": str(c.get("impl"))[:300].encode("ascii", "backslashreplace").decode()})
                 break
     return {
         "evaluations": len(cases), "distinct_nontrivial": distinct,
@@ -436,7 +483,10 @@ def _run(ctx, rnd, quick, ct, ft, it, names, mod, CallTraceRow, CallTrace, type_
                 "decoder edges: directed malformed dicts + single mutations of real encodings. traces: every class of the streams (incl. falsy class objects and classes named like typing forms) as top-level return, "
                 "yield and argument type, bare and as Type[C]; every fixture function kind (incl. names bound to non-function wrapper objects: lru_cache, decorator-class instances) x "
                 "return {absent, NoneType, type} x yield {absent, NoneType, type} x 0-3 argument types (half of them TypedDict-bearing); "
-                "every trace is also built the other way round (argument dict in reverse insertion order, every TypedDict's fields "
+                "every importable trace's row is also written to a fresh SQLite store, read back (TEXT compared) and decoded; a history "
+                "(rows written + decoded, importlib.reload of the fixture module, same rows decoded again) is judged against the "
+                "post-reload environment; dict keys / parameter names / identifiers beyond ASCII incl. lone surrogates; plain classes "
+                "exposing __args__ / __origin__ / a catch-all metaclass __getattr__; every trace is also built the other way round (argument dict in reverse insertion order, every TypedDict's fields "
                 "reversed, same site) and the raw stored strings of the two CallTraceRows must be identical; same raw-text test for "
                 "the field-reversed copy of every TypedDict-bearing type; model JSON vs stored JSON compared in key ORDER. non-trivial = type has a "
                 "generic/union/TypedDict node, or any trace/decode case; distinct by hash of the reified case",
@@ -491,7 +541,80 @@ def _opt(x):
     return "None" if x is None else f"(Some {x})"
 
 
-def _trace_case(CallTrace, CallTraceRow, func, expect, kind, label, args, ret, yld, rmode, ymode, ct, ft, it, names, dist):
+def _reload_history(mod, CallTrace, CallTraceRow, ct, ft, it, names, dist):
+    """Rows are written and decoded once; then the fixture module is reloaded (same source: every name is rebound to a
+    NEW function / class object); then the same rows are decoded again.  They must lead to what the names lead to now.
+    The cases are judged in the second world (ECAfter)."""
+    import importlib
+    from typing import Dict, List, Optional, Type
+    shapes = [lambda m: m.K, lambda m: List[m.K.Inner], lambda m: Type[m.Sub],
+              lambda m: Dict[str, Optional[m.K.Inner.Deep]], lambda m: typegen.make_td({"a": m.Plain, "b": Type[m.K]})]
+    specs = []
+    for i, (label, (_, ok, _k)) in enumerate(mod.FUNCS.items()):
+        if ok:
+            specs.append((label, shapes[i % 5], shapes[(i + 1) % 5], shapes[(i + 2) % 5]))
+    before, old_funcs = [], {}
+    for label, a, r, y in specs:
+        func = mod.FUNCS[label][0]
+        old_funcs[label] = func
+        row = CallTraceRow.from_trace(CallTrace(func, {"x": a(mod)}, r(mod), y(mod)))
+        row.to_trace()                         # a long-running process has decoded it once already
+        before.append(row)
+    importlib.reload(mod)
+    out = []
+    for (label, a, r, y), old_row in zip(specs, before):
+        func, expect, kind = mod.FUNCS[label]
+        if func is old_funcs[label]:
+            raise RuntimeError("harness: reload did not rebind " + label)
+        out.append(_trace_case(CallTrace, CallTraceRow, func, expect, kind, label, {"x": a(mod)}, r(mod), y(mod),
+                               "type", "type", ct, ft, it, names, dist, decode_row=old_row))
+    return out
+
+
+def _dtrace_term(back, ct, ft):
+    rt = (lambda t: common.reify_type(t, ct))
+    return "(Ok (DTrace %s %s %s %s))" % (
+        ej.obj_term(back.func, ct, ft),
+        common.coq_list(f"({common.coq_str(n)}, {rt(t)})" for n, t in back.arg_types.items()),
+        _opt(None if back.return_type is None else f"({rt(back.return_type)})"),
+        _opt(None if back.yield_type is None else f"({rt(back.yield_type)})"))
+
+
+def _through_store(tr, row, ib, ct, ft):
+    """The real store: add([tr]) on a fresh SQLite database, filter it back, compare the stored TEXT with the
+    in-memory row and the decoded trace with the in-memory decode."""
+    import sqlite3
+    from monkeytype.db.sqlite import SQLiteStore, create_call_trace_table
+    conn = sqlite3.connect(":memory:")
+    try:
+        create_call_trace_table(conn)
+        store = SQLiteStore(conn)
+        store.add([tr])
+        got = store.filter(row.module, row.qualname)
+        if len(got) != 1:
+            return False, f"SQLiteStore.add then filter({row.module!r}, {row.qualname!r}) returned {len(got)} rows"
+        g = got[0]
+        a = (g.module, g.qualname, g.arg_types, g.return_type, g.yield_type)
+        b = (row.module, row.qualname, row.arg_types, row.return_type, row.yield_type)
+        if a != b:
+            return False, f"row read back from SQLite differs from the row written: {a!r:.300} vs {b!r:.300}"
+        try:
+            ib2 = _dtrace_term(g.to_trace(), ct, ft)
+        except Exception as e:
+            ib2 = ej.exn_term(e)
+        if ib2 != ib:
+            return False, f"row read back from SQLite decodes differently: {ib2[:200]} vs {ib[:200]}"
+        return True, None
+    except Exception as e:
+        return False, f"SQLiteStore.add/filter raised {type(e).__name__}: {e} (the flushed batch is lost)"
+    finally:
+        conn.close()
+
+
+def _trace_case(CallTrace, CallTraceRow, func, expect, kind, label, args, ret, yld, rmode, ymode, ct, ft, it, names, dist,
+                decode_row=None):
+    """decode_row: a row written earlier (before the module was reloaded) that must carry the same text as this trace's
+    row; it is the one decoded."""
     f_id = ft.of(func)
     tr = CallTrace(func, dict(args), ret, yld)
     rt = (lambda t: common.reify_type(t, ct))
@@ -501,6 +624,7 @@ def _trace_case(CallTrace, CallTraceRow, func, expect, kind, label, args, ret, y
     ib = "OutOfModel"
     impl = None
     text_same = True
+    store_same = True
     try:
         row = CallTraceRow.from_trace(tr)
         # the same trace built the other way round: argument dict in reverse insertion order, every TypedDict
@@ -528,13 +652,13 @@ def _trace_case(CallTrace, CallTraceRow, func, expect, kind, label, args, ret, y
         oj = (lambda s: "None" if s is None else f"(Some {ej.json_text_term(s, it)})")
         ir = "(Ok (Row %s %s %s %s %s))" % (common.coq_str(row.module), common.coq_str(row.qualname),
                                             ej.json_text_term(row.arg_types, it), oj(row.return_type), oj(row.yield_type))
+        if decode_row is not None:
+            old = (decode_row.module, decode_row.qualname, decode_row.arg_types, decode_row.return_type, decode_row.yield_type)
+            if old != (row.module, row.qualname, row.arg_types, row.return_type, row.yield_type):
+                raise RuntimeError("harness: the row written before the reload differs from the row of the rebuilt trace")
         try:
-            back = row.to_trace()
-            ib = "(Ok (DTrace %s %s %s %s))" % (
-                ej.obj_term(back.func, ct, ft),
-                common.coq_list(f"({common.coq_str(n)}, {rt(t)})" for n, t in back.arg_types.items()),
-                _opt(None if back.return_type is None else f"({rt(back.return_type)})"),
-                _opt(None if back.yield_type is None else f"({rt(back.yield_type)})"))
+            back = (decode_row if decode_row is not None else row).to_trace()
+            ib = _dtrace_term(back, ct, ft)
             impl = impl or f"to_trace -> func {'same' if back.func is func else 'DIFFERENT'}, return {back.return_type!r:.80}, yield {back.yield_type!r:.80}"
         except Exception as e:
             ib = ej.exn_term(e)
@@ -552,8 +676,20 @@ def _trace_case(CallTrace, CallTraceRow, func, expect, kind, label, args, ret, y
         impl = (f"CallTraceRow.from_trace stores different text for a structurally identical trace (permuted insertion order): "
                 f"arg_types {row.arg_types[:200]!r} vs {row2.arg_types[:200]!r}; return {str(row.return_type)[:80]!r} vs "
                 f"{str(row2.return_type)[:80]!r}; yield {str(row.yield_type)[:80]!r} vs {str(row2.yield_type)[:80]!r}") if impl is None or impl.startswith("to_trace") else impl
-    return {"kind": "trace", "term": f"ECTrace {common.coq_bool(expect)} {tr_term} {ir} {ib} {common.coq_bool(text_same)}",
-            "desc": f"CallTrace({label} [{kind}], args={ {n: repr(t)[:60] for n, t in args.items()} }, return={ret!r:.80}, yield={yld!r:.80})",
+    if ir.startswith("(Ok"):
+        store_same, smsg = _through_store(tr, row, ib, ct, ft)
+        dist["trace_through_sqlite"] += 1
+        if not store_same:
+            dist["trace_store_differs"] += 1
+            impl = smsg
+    term = f"ECTrace {common.coq_bool(expect)} {tr_term} {ir} {ib} {common.coq_bool(text_same)} {common.coq_bool(store_same)}"
+    pre = ""
+    if decode_row is not None:
+        term = f"ECAfter ({term})"
+        pre = "row written and decoded once, then importlib.reload(fixture module), then the same row decoded again: "
+        dist["trace_decoded_after_reload"] += 1
+    return {"kind": "trace", "term": term,
+            "desc": pre + f"CallTrace({label} [{kind}], args={ {n: repr(t)[:60] for n, t in args.items()} }, return={ret!r:.80}, yield={yld!r:.80})",
             "impl": impl, "nontrivial": True}
 
 
